@@ -51,6 +51,8 @@ def fault_atoms():
         [["badcrc"]],
         [["trunc"]],
         [["trunc"], ["fin"]],
+        [["undecodable_value"]],
+        [["undecodable_struct"]],
         [["wfail", 1]],
         [["wfail", 2]],
         [["wfail", 3]],
@@ -75,6 +77,7 @@ API_ATOMS = [
     [("net", "accept", 2.0 + EPS), ("fin",)],
     [("fin",)], [("rst",)], [("garbage",)], [("badcrc",)], [("trunc",)],
     [("trunc",), ("fin",)],
+    [("undecodable_value",)], [("undecodable_struct",)],
     [("wfail", 1), ("cmd", "ac_on")], [("wfail", 2), ("cmd", "zone_damper")],
     [("wfail", 3), ("cmd", "ac_toggle")],
     [("cmd", "zone_setpoint_300")],        # struct.error kind, through the public API
@@ -103,6 +106,25 @@ def expand(gen, ops):
             out.append(["data", F.probe_frame(gen, 9)[:5].hex()])
         elif op[0] == "status":
             out.append(["data", F.probe_frame(gen, 11).hex()])
+        elif op[0] == "undecodable_value":
+            # well-formed frame (right CRC) whose payload no decoder accepts: AC status with
+            # an undefined mode code -> ValueError from the enum
+            if gen == 4:
+                raw = R.frame(4, R.ADDR_CLIENT, 0x80, 5, 0x2D, bytes([0x40, 0xF2, 0x1A, 0, 0x61,
+                                                                      0x80, 0, 0]))
+            else:
+                raw = R.frame(5, R.ADDR_CLIENT, 0x80, 5, 0xC0, R.c0(0x23, 8, [bytes(
+                    [0x10, 0xF2, 0x78, 0xC0, 0x02, 0xDA, 0, 0])]))
+            out.append(["data", raw.hex()])
+        elif op[0] == "undecodable_struct":
+            # consistent frame length but fewer bytes than the sub-structure needs:
+            # struct.error inside a decoder
+            if gen == 4:
+                raw = R.frame(4, R.ADDR_CLIENT, 0x90, 6, 0x1F, R.ext(0xFF11, b"\x00\x16UNIT"))
+            else:
+                raw = R.frame(5, R.ADDR_CLIENT, 0x80, 6, 0xC0,
+                              bytes([0x21, 0, 0, 0, 0, 8, 0, 3]) + bytes(8))
+            out.append(["data", raw.hex()])
         else:
             out.append(op)
     return out
